@@ -275,4 +275,4 @@ def run(pid, tier, seed):
             camp.fail(k, what, rc["case"])
     comparator(camp, tier == "thorough")
     camp.merge(core.run_shards(shard, [dict(seed=core.seed_of(seed, s, 8), n=n) for s in range(shards)]))
-    return core.finish(pid, tier, seed, camp, RULE, t0, assumptions=["zero-highlight diagnostics have no producer and are not constructed"])
+    return core.finish(pid, tier, seed, camp, RULE, t0, replay_fn=replay, assumptions=["zero-highlight diagnostics have no producer and are not constructed"])
